@@ -64,8 +64,9 @@ func (c *Ctx) Configs() []string {
 		return []string{"amd64", "purego", "arm64", "386"}
 	}
 	if c.QuickArm64 {
-		// the properties that rest on the limb code analyse the arm64 assembly on every change too
-		return []string{"amd64", "purego", "arm64"}
+		// the properties that rest on the limb code analyse the arm64 assembly and the 32-bit-int configuration on
+		// every change too (a mask written as cond<<63>>63 is right wherever int has 64 bits and always 0 on 386)
+		return []string{"amd64", "purego", "arm64", "386"}
 	}
 	return []string{"amd64", "purego"}
 }
